@@ -331,6 +331,7 @@ func main() {
 
 	registered = otp.ListSuites()
 	sort.Strings(registered)
+	buildDict()
 
 	if *execOnly != "" {
 		data, err := os.ReadFile(*execOnly)
